@@ -256,7 +256,48 @@ impl<'a, 'tcx> FnCx<'a, 'tcx> {
             }
             _ => {
                 if let Const::Unevaluated(uv, _) = c.const_ {
-                    parts.push(format!("\"cn\":{}", js(&self.cx.path(uv.def))));
+                    match uv.promoted {
+                        None => parts.push(format!("\"cn\":{}", js(&self.cx.path(uv.def)))),
+                        Some(p) => {
+                            // promoted constant (`&CONST`, `&literal`): name the constants it mentions
+                            parts.push(format!("\"promoted\":{}", p.index()));
+                            let mut names: Vec<String> = Vec::new();
+                            if uv.def.is_local() {
+                                let prom = tcx.promoted_mir(uv.def);
+                                if let Some(pb) = prom.get(p) {
+                                    for bbd in pb.basic_blocks.iter() {
+                                        for st in bbd.statements.iter() {
+                                            if let StatementKind::Assign(b) = &st.kind {
+                                                let mut ops: Vec<&Operand<'tcx>> = Vec::new();
+                                                match &b.1 {
+                                                    Rvalue::Use(o, ..) => ops.push(o),
+                                                    Rvalue::Cast(_, o, _) => ops.push(o),
+                                                    Rvalue::Aggregate(_, os) => {
+                                                        for o in os.iter() {
+                                                            ops.push(o)
+                                                        }
+                                                    }
+                                                    _ => {}
+                                                }
+                                                for o in ops {
+                                                    if let Operand::Constant(ic) = o {
+                                                        if let Const::Unevaluated(iuv, _) = ic.const_ {
+                                                            if iuv.promoted.is_none() {
+                                                                names.push(self.cx.path(iuv.def));
+                                                            }
+                                                        }
+                                                    }
+                                                }
+                                            }
+                                        }
+                                    }
+                                }
+                            }
+                            if names.len() == 1 {
+                                parts.push(format!("\"cn\":{}", js(&names[0])));
+                            }
+                        }
+                    }
                 }
                 let is_scalar = ty.is_integral() || ty.is_bool() || ty.is_char();
                 if is_scalar {
@@ -269,6 +310,19 @@ impl<'a, 'tcx> FnCx<'a, 'tcx> {
                             bits as i128
                         };
                         parts.push(format!("\"v\":{}", js(&v.to_string())));
+                    }
+                } else if ty.is_floating_point() {
+                    if let Some(si) = c.const_.try_eval_scalar_int(tcx, self.env) {
+                        let size = si.size();
+                        let bits = si.to_bits(size);
+                        let f: f64 = if size.bytes() == 4 {
+                            f32::from_bits(bits as u32) as f64
+                        } else if size.bytes() == 8 {
+                            f64::from_bits(bits as u64)
+                        } else {
+                            f64::NAN
+                        };
+                        parts.push(format!("\"f\":{}", js(&format!("{:?}", f))));
                     }
                 } else if let ty::Ref(_, inner, _) = ty.kind() {
                     if inner.is_str() {
@@ -357,8 +411,23 @@ impl<'a, 'tcx> FnCx<'a, 'tcx> {
                 format!("[\"un\",{},{}]", js(&format!("{:?}", op)), self.operand(a))
             }
             Rvalue::Discriminant(p) => {
-                let t = p.ty(self.body, self.cx.tcx).ty;
-                format!("[\"discr\",{},{}]", self.place(p), js(&self.cx.ty(t)))
+                let tcx = self.cx.tcx;
+                let t = p.ty(self.body, tcx).ty;
+                let mut vars: Vec<String> = Vec::new();
+                if let ty::Adt(def, _) = t.kind() {
+                    if def.is_enum() {
+                        for (vi, v) in def.variants().iter_enumerated() {
+                            let d = def.discriminant_for_variant(tcx, vi).val;
+                            vars.push(format!("[{},{}]", js(&d.to_string()), js(&v.name.to_string())));
+                        }
+                    }
+                }
+                format!(
+                    "[\"discr\",{},{},{}]",
+                    self.place(p),
+                    js(&self.cx.ty(t)),
+                    jarr(&vars)
+                )
             }
             Rvalue::Aggregate(kind, ops) => {
                 let k = match &**kind {
